@@ -286,15 +286,6 @@ static void GenAll(uint64_t seed, bool thorough, std::vector<std::string>& out)
 	if (thorough) { GenCutCase(g, 4, "A"); GenCutCase(g, 3, "B"); GenCutCase(g, 1, "C"); }
 	int n = thorough ? 6000 : 1200;
 	for (int i = 0; i < n; i++) GenRandomCase(g, 8 + (int)rng.below(thorough ? 50 : 30));
-	if (thorough) {
-		/* the rotation at 50 000 records without touching the counter */
-		g.Header(1, 86400, 86400, 86400);
-		for (int i = 0; i < 50003; i++) { g.now += 1 + (long long)rng.below(3); g.Relay("-"); }
-		g.Emit("ls");
-		g.Emit("conn A");
-		g.Tick();
-		g.Emit("replay " + g.Now() + " A");
-	}
 }
 
 /* ------------------------------------------------------------------------------------------- */
@@ -885,6 +876,7 @@ static int NodeMain(const std::string& file, const std::string& work, const std:
 		if (i == 0 && resume) {
 			printf("%s | %s\n", lines[0].c_str(), PosStr().c_str());
 		} else {
+			WriteFile(dir + ".op", lines[i] + "\n");
 			RunOp(w, lines[i]);
 		}
 		if (w[0] == "stop" || w[0] == "crash") ended = true;
@@ -936,7 +928,9 @@ static int PartMain(const char *self, const std::string& file, const std::string
 		if (waitpid(pid, &st, 0) < 0) Die("waitpid failed");
 		if (WIFSIGNALED(st)) {
 			/* the real code crashed: an observation, not a harness failure */
-			printf("DIED %d | the node process was killed by this signal during the operation after the last line above\n", WTERMSIG(st));
+			std::string opLine = ReadFile(dir + ".op");
+			while (!opLine.empty() && opLine.back() == '\n') opLine.pop_back();
+			printf("%s | DIED %d\n", opLine.c_str(), WTERMSIG(st));
 			skipCase = true;
 			continue;
 		}
